@@ -150,7 +150,11 @@ func (sc *c11Scenario) build(s *simrt.Sim, n c11Node, v0 int) *fpgo.MonadIODef[i
 	sc.builtN++
 	var m *fpgo.MonadIODef[int]
 	if n.New {
-		m = fpgo.MonadIONewGenerics(func() int {
+		mk := fpgo.MonadIONewGenerics[int]
+		if n.ID%2 == 1 {
+			mk = (&fpgo.MonadIODef[int]{}).New // method-style constructor
+		}
+		m = mk(func() int {
 			sc.log = append(sc.log, c11Ev{fmt.Sprintf("e%d", n.ID), s.Self().ID})
 			s.Yield()
 			return v0 + n.C
